@@ -177,6 +177,20 @@ protected:
 };
 }
 namespace rlbox {
+// B32Z: guard zones around the region are neither sandbox memory nor application memory (the two membership
+// predicates of the plugin interface are not complements)
+class rlbox_vsbx_guardzone : public rlbox_vsbx<uint32_t, 32>
+{
+public:
+  static constexpr uintptr_t GUARD = 0x10000;
+  inline bool impl_is_pointer_in_app_memory(const void* p)
+  {
+    auto a = reinterpret_cast<uintptr_t>(p);
+    return a < this->base - GUARD || a - this->base >= SIZE + GUARD;
+  }
+};
+}
+namespace rlbox {
 // B8V: a 256-byte window whose usable memory is chosen per sandbox at creation (two sandboxes of the type may differ):
 // anything derived from get_total_memory() - such as the app-pointer token limit - is per sandbox
 class rlbox_vsbx_var : public rlbox_vsbx<uint8_t, 8>
@@ -237,6 +251,7 @@ using B64M = rlbox::rlbox_vsbx_mask64;
 using B32L = rlbox::rlbox_vsbx_life;
 using B32W = rlbox::rlbox_vsbx_wide;
 using B8V = rlbox::rlbox_vsbx_var;
+using B32Z = rlbox::rlbox_vsbx_guardzone;
 using B32 = rlbox::rlbox_vsbx<uint32_t, 32>;
 using B64 = rlbox::rlbox_vsbx<uint64_t, 32>;   // host-width, non-identity representation (offset from base)
 using B32S = rlbox::rlbox_vsbx_small<16>;
